@@ -103,6 +103,11 @@ func runC02(c *Cfg) {
 	for i, src := range c02LiteralPrefixes() {
 		cases = append(cases, &c02Case{src: []byte(src), origin: fmt.Sprintf("literal-prefix#%d", i), kind: "literal-prefix", runs: 2})
 	}
+	// every prefix of every syntactic idiom + every suffix, raw bytes, NO newline appended; a
+	// scanner/parser that does not come back on a few dozen bytes within 5 CPU seconds hangs
+	for i, src := range c02SyntaxPrefixes() {
+		cases = append(cases, &c02Case{src: []byte(src), origin: fmt.Sprintf("syntax-prefix#%d", i), kind: "syntax-prefix", runs: 2, cpuMs: 5000})
+	}
 	for i := 0; i < nRaw && len(seeds) > 0; i++ {
 		r := rr.Sub()
 		s := Pick(r, seeds)
@@ -116,6 +121,12 @@ func runC02(c *Cfg) {
 			if strings.Count(kind, "+") > 2 {
 				break
 			}
+		}
+		// the end of input is never normalised; a third of the raw cases additionally lose
+		// their final newline(s), so that every construct also occurs AT the end of input
+		if r.Chance(1, 3) {
+			src = bytes.TrimRight(src, "\r\n")
+			kind += "+no-final-newline"
 		}
 		cases = append(cases, &c02Case{src: src, origin: s.Name, kind: kind, runs: 2})
 	}
@@ -197,6 +208,9 @@ func runC02(c *Cfg) {
 // compares all digests.
 func c02RunCase(pool *c02Pool, cs *c02Case, cpuMs int) (*c02Failure, string) {
 	// the budget is per pipeline run-pair: a request of 6 or 8 runs gets proportionally more
+	if cs.cpuMs > 0 {
+		cpuMs = cs.cpuMs
+	}
 	rq := &c02Req{ID: cs.id, Src: cs.src, Runs: cs.runs, CPUms: cpuMs * max(1, cs.runs/2)}
 	o := pool.Ask(rq)
 	fail := func(kind, detail string) *c02Failure {
